@@ -51,6 +51,7 @@ struct push0_pipe {
 	nni_pipe     *pipe;
 	push0_sock   *push;
 	nni_list_node node;
+	bool          closed; // pipe_close has run: never goes back on pl
 
 	nni_aio aio_recv;
 	nni_aio aio_send;
@@ -158,6 +159,7 @@ push0_pipe_close(void *arg)
 	nni_aio_close(&p->aio_send);
 
 	nni_mtx_lock(&s->m);
+	p->closed = true;
 	if (nni_list_node_active(&p->node)) {
 		nni_list_node_remove(&p->node);
 
@@ -194,6 +196,13 @@ push0_pipe_ready(push0_pipe *p)
 	bool        blocked;
 
 	nni_mtx_lock(&s->m);
+	if (p->closed) {
+		// A send that completed after the pipe was closed: the pipe
+		// must not take more work, nor go back on the ready list
+		// (it is about to be destroyed).
+		nni_mtx_unlock(&s->m);
+		return;
+	}
 
 	blocked = nni_lmq_full(&s->wq) && nni_list_empty(&s->pl);
 
